@@ -1016,7 +1016,8 @@ class Exec:
             if not (isinstance(p, Ptr) and p.obj == -1 and isc(p.off)): raise Violation('unsupported', 'indirect call through non-constant pointer', st)
             name = s.fbyaddr[p.off]
         f = s.m.funcs.get(name)
-        if name in ('_ZNSt7__cxx119to_stringEi', '_ZNSt7__cxx119to_stringEl', '_ZNSt7__cxx119to_stringEm', '_ZNSt7__cxx119to_stringEj'):
+        if name in ('_ZNSt7__cxx119to_stringEi', '_ZNSt7__cxx119to_stringEl', '_ZNSt7__cxx119to_stringEm', '_ZNSt7__cxx119to_stringEj', '_ZNSt7__cxx119to_stringEd', '_ZNSt7__cxx119to_stringEf', '_ZNSt7__cxx119to_stringEe', '_ZNSt7__cxx119to_stringEx', '_ZNSt7__cxx119to_stringEy',
+                    '_ZN9__gnu_cxx12__to_xstringINSt7__cxx1112basic_stringIcSt11char_traitsIcESaIcEEEcEET_PFiPT0_mPKS8_P13__va_list_tagEmSB_z'):
             # formatting stub: numeric value dropped from messages; yields an empty SSO string
             p = args[0]
             s.store_val(st, p, PTR(I8), Ptr(p.obj, p.off + 16)); s.store_val(st, Ptr(p.obj, p.off + 8), I64, 0); s.store_val(st, Ptr(p.obj, p.off + 16), I8, 0)
